@@ -245,7 +245,7 @@ def part3(enz, kind, sig):
 def unit_three_prime(st, enz, tier):
     import Bio.Restriction as R
     g = gen.geometry_of(getattr(R, enz))
-    words = gen.overhang_words(g.ov, 4, 2)
+    words = gen.overhang_words(g.ov, 4 if g.ov > 1 else 3, 2)
     forbid = [g.site]
     n_ok = 0
     for (o5, o3) in [(words[0], words[1]), (words[1], words[2]), (words[2], words[0])]:
@@ -270,8 +270,18 @@ def unit_three_prime(st, enz, tier):
     st.sample(dict(family="three-prime", enz=enz, kind="module", rotation=1))
 
 
+def three_prime_menu(tier):
+    allg = gen.three_prime_enzymes()
+    if tier == "thorough":
+        return [n for n, _ in allg]
+    # quick: the three classic ones, the first geometry with a 1-nt overhang and the one with the shortest site
+    one = [n for n, g in allg if g.ov == 1][:1]
+    short = sorted(allg, key=lambda t: (len(t[1].site), t[0]))[:1]
+    return sorted(set(THREE_PRIME + one + [short[0][0]]))
+
+
 def units(tier):
-    us = [("three-prime", e) for e in THREE_PRIME]
+    us = [("three-prime", e) for e in three_prime_menu(tier)]
     cls = gen.kit_classes()
     for c in cls:
         us.append(("instances", c.__name__))
